@@ -61,6 +61,17 @@ def extract(repo, failures):
         d["perEventCatch"] = "QUILL_CATCH_ALL" in pl and "QUILL_CATCH(std::exception" in pl.replace(" ", "").replace("QUILL_CATCH(std::exceptionconst&e)", "QUILL_CATCH(std::exception")
         d["strictMinimum"] = bool(re.search(r"min_ts\s*>\s*te->timestamp", pl))
 
+    # context clean-up: the failure counters are reported right before a context is removed (F24)
+    cc = func_body(bw, r"void\s+_cleanup_invalidated_thread_contexts\s*\(\s*\)\s*\{")
+    if cc is None:
+        failures.append("backend: _cleanup_invalidated_thread_contexts not found")
+        d["cleanupReportsCounter"] = False
+    else:
+        i_loop = cc.find("while (")
+        i_chk = cc.find("_check_failure_counter", max(i_loop, 0))
+        i_rm = cc.find("remove_shared_invalidated_thread_context", max(i_loop, 0))
+        d["cleanupReportsCounter"] = 0 <= i_loop < i_chk < i_rm
+
     # the read loop: stop on ts > ts_now, do-while with capacity and hard-limit exits, commit only if something was read
     rd = func_body(bw, r"size_t\s+_read_and_decode_frontend_queue\s*\([^)]*\)\s*\{")
     pe = func_body(bw, r"bool\s+_populate_transit_event_from_frontend_queue\s*\([^)]*\)\s*\{")
@@ -123,6 +134,64 @@ def extract(repo, failures):
     # F12: only sinks of loggers that are still valid are flushed (the theorem says "every ACTIVE sink")
     d["flushOnlyValidLoggers"] = bool(fl and "is_valid_logger" in fl)
 
+    # ---- C16: level / filter decision logic (LogLevel.h, LoggerBase.h, LogMacros.h, Sink.h, TransitEvent.h) ----
+    levels = []
+    try:
+        ll = strip_cpp_comments(read(repo, "include/quill/core/LogLevel.h"))
+        m = re.search(r"enum\s+class\s+LogLevel\s*(?::\s*\w+)?\s*\{(.*?)\}", ll, re.S)
+        if not m:
+            failures.append("backend: enum class LogLevel not found")
+        else:
+            for item in [x.strip() for x in m.group(1).split(",") if x.strip()]:
+                if "=" in item:
+                    failures.append("backend: enum class LogLevel has an explicit enumerator value `%s` (rank is no longer the position)" % item)
+                levels.append(item.split("=")[0].strip())
+    except Exception as ex_:
+        failures.append("backend: LogLevel.h unreadable: %r" % (ex_,))
+    try:
+        lb = strip_cpp_comments(read(repo, "include/quill/core/LoggerBase.h"))
+        bodies = re.findall(r"bool\s+should_log_statement\s*\([^)]*\)\s*const\s*noexcept\s*\{([^}]*)\}", lb)
+        d["frontendLevelCmpGe"] = len(bodies) >= 2 and all(
+            re.fullmatch(r"\s*return\s+log_statement_level\s*>=\s*get_log_level\(\)\s*;\s*", b) for b in bodies)
+    except Exception:
+        d["frontendLevelCmpGe"] = False
+    try:
+        mac = read(repo, "include/quill/LogMacros.h").replace("\\\n", " ")
+        m1 = re.search(r"#define\s+QUILL_LOGGER_CALL\(likelyhood,\s*logger,\s*tags,\s*log_level,\s*fmt,\s*\.\.\.\)(.*?)while\s*\(0\)", mac, re.S)
+        m2 = re.search(r"#define\s+QUILL_DYNAMIC_LOGGER_CALL\(logger,\s*tags,\s*log_level,\s*fmt,\s*\.\.\.\)(.*?)while\s*\(0\)", mac, re.S)
+        ok1 = bool(m1 and re.search(r"if\s*\(\s*likelyhood\(\s*logger->template\s+should_log_statement<log_level>\(\)\s*\)\s*\)\s*\{[^}]*log_statement<[^>]*>\s*\([^;]*__VA_ARGS__\)\s*;\s*\}", m1.group(1), re.S))
+        ok2 = bool(m2 and re.search(r"if\s*\(\s*logger->should_log_statement\(log_level\)\s*\)\s*\{[^}]*log_statement<[^>]*>\s*\(\s*log_level\s*,[^;]*__VA_ARGS__\)\s*;\s*\}", m2.group(1), re.S))
+        d["macroGuardsEvaluation"] = ok1 and ok2
+    except Exception:
+        d["macroGuardsEvaluation"] = False
+    try:
+        sk = strip_cpp_comments(read(repo, "include/quill/sinks/Sink.h"))
+        af = func_body(sk, r"bool\s+apply_all_filters\s*\([^)]*\)\s*\{")
+        d["sinkLevelCmpLt"] = bool(af and re.search(r"if\s*\(\s*log_level\s*<\s*_log_level\.load\([^)]*\)\s*\)\s*\{\s*return\s+false\s*;", af))
+        d["sinkFiltersAllOf"] = bool(af and re.search(r"return\s+std::all_of\(\s*_local_filters\.begin\(\)\s*,\s*_local_filters\.end\(\)", af)
+                                     and re.search(r"if\s*\(\s*_local_filters\.empty\(\)\s*\)\s*\{\s*return\s+true\s*;", af))
+    except Exception:
+        d["sinkLevelCmpLt"] = False
+        d["sinkFiltersAllOf"] = False
+    wl = func_body(bw, r"void\s+_write_log_statement\s*\([^)]*\)\s*const\s*\{")
+    if wl is None:
+        failures.append("backend: _write_log_statement not found")
+        d["perSinkFilterInLoop"] = False
+    else:
+        i_for = wl.find("for (auto& sink : transit_event.logger_base->sinks)")
+        loop = wl[i_for:] if i_for >= 0 else ""
+        d["perSinkFilterInLoop"] = bool(i_for >= 0 and re.search(
+            r"if\s*\(\s*sink->apply_all_filters\([^;{]*transit_event\.log_level\(\)[^;{]*\)\s*\)\s*\{.*sink->write_log\([^;]*transit_event\.log_level\(\)[^;]*\)\s*;", loop, re.S))
+    try:
+        te = strip_cpp_comments(read(repo, "include/quill/backend/TransitEvent.h"))
+        lv = func_body(te, r"LogLevel\s+log_level\s*\(\s*\)\s*const\s*noexcept\s*\{")
+        d["eventLevelSelect"] = bool(lv and re.search(
+            r"if\s*\(\s*macro_metadata->log_level\(\)\s*!=\s*LogLevel::Dynamic\s*\)\s*\{\s*return\s+macro_metadata->log_level\(\)\s*;\s*\}\s*else\s*\{\s*return\s+dynamic_log_level\s*;", lv))
+    except Exception:
+        d["eventLevelSelect"] = False
+    d["dynamicLevelDecodedOrReset"] = bool(pe and re.search(
+        r"if\s*\(\s*transit_event->macro_metadata->log_level\(\)\s*==\s*LogLevel::Dynamic\s*\)\s*\{\s*std::memcpy\(\s*&transit_event->dynamic_log_level\s*,\s*read_pos[^}]*\}\s*else\s*\{\s*transit_event->dynamic_log_level\s*=\s*LogLevel::None\s*;", pe))
+
     # logger clean-up: the emptiness of all queues is re-checked for every invalid logger, inside the loop, after its
     # validity was read (a logger invalidated while an earlier one is being destroyed must see the fresh answer)
     lm = strip_cpp_comments(read(repo, "include/quill/core/LoggerManager.h"))
@@ -138,12 +207,16 @@ def extract(repo, failures):
 
     L = []
     L.append("/-- facts of the backend worker / frontend the backend model is parametric in -/")
+
     L.append("def invalidBits : Nat := %d" % d["invalidBits"])
+    L.append("/-- enumerators of `enum class LogLevel` in declaration order, no explicit values: rank = position (C16) -/")
+    L.append("def backendLevelNames : List String := [%s]" % ", ".join('"%s"' % n for n in levels))
+    d["levelNames"] = levels
     for k in sorted(d):
-        if k == "invalidBits":
+        if k in ("invalidBits", "levelNames"):
             continue
         L.append("def %s : Bool := %s" % (k, lean_bool(d[k])))
     return d, "\n".join(L)
 
 
-FALLBACK = ({"invalidBits": 0}, "def invalidBits : Nat := 0")
+FALLBACK = ({"invalidBits": 0}, "def invalidBits : Nat := 0\ndef backendLevelNames : List String := []")
